@@ -45,6 +45,10 @@ def make_variations(case, rng):
     perm = list(range(n))
     rng.shuffle(perm)
     out.append(("permuted", {"sig": sig, "base": [base[i] for i in perm], "keys": list(range(1, n + 1)), "qs": qs, "qkeys": list(range(1, m + 1))}))
+    # the same key -> conditional pairs listed in other orders (only the dict insertion order differs)
+    out.append(("reversed", {"sig": sig, "base": list(reversed(base)), "keys": list(range(n, 0, -1)), "qs": qs, "qkeys": list(range(1, m + 1))}))
+    rot = base[1:] + base[:1]
+    out.append(("rotated", {"sig": sig, "base": rot, "keys": list(range(2, n + 1)) + [1], "qs": qs, "qkeys": list(range(1, m + 1))}))
     rk = rng.sample(range(0, 3 * n + 2), n)
     out.append(("randkeys", {"sig": sig, "base": base, "keys": rk, "qs": qs, "qkeys": rng.sample(range(0, 3 * m + 2), m)}))
     # renaming (consistent), incl. names that look like the reserved words / helper names
@@ -109,10 +113,15 @@ def run(chk: Check, tier: str):
             c = infer.gen_case(rng, rng.choice([2, 3, 3, 4]), rng.choice([1, 2, 3, 3, 4]), 6, {"strong", "weak-mixed", "weak-nofin"})
         if c:
             cases.append({"sig": c["sig"], "base": [(x["B"], x["A"]) for x in c["base"]], "qs": [(x["B"], x["A"]) for x in c["qs"]], "small": True})
+    # TLC-found inputs with several tied correction sets in one layer (InfOCFAlgo's wrong variants): order- and key-sensitive shapes
+    for var, cnt in (("lexAllPairs", 10), ("wAnyTie", 10), ("lexAllMcsF", 8), ("wMinCard", 8)):
+        for c in infer.distinguishing_cases(rng, var)[: (cnt if tier == "quick" else 60)]:
+            cases.append({"sig": c["sig"], "base": [(x["B"], x["A"]) for x in c["base"]], "qs": [(x["B"], x["A"]) for x in c["qs"]], "small": True, "wl_only": True})
     for g in rel.generated_cases(rng, n_big, atom_range=(6, 20), nq=5):
         cases.append({"sig": g["sig"], "base": g["base"], "qs": g["qs"], "small": False})
     configs = infer.configs_for(["p", "z", "w", "l", "c"], [False, True])
-    tasks = [(c, configs, rng.randrange(1 << 30)) for c in cases]
+    wl = [c for c in configs if c[0] in ("w", "l") and not (c[2] and c[1] == "z3")]  # the tie-sensitive operators only
+    tasks = [(c, wl if c.get("wl_only") else configs, rng.randrange(1 << 30)) for c in cases]
     # key-focused stage: many multi-layer bases, every rotation of the keys 0..n-1, the operators that address conditionals by key
     kconfigs = [("p", "", False), ("w", "rc2", False), ("l", "rc2", False), ("c", "rc2", False), ("w", "rc2", True), ("l", "rc2", True)]
     for i in range(300 if tier == "quick" else 6000):
